@@ -1,6 +1,7 @@
 package main
 
 import (
+	"golang.org/x/tools/go/ssa"
 	"fmt"
 	"go/types"
 	"os"
@@ -65,6 +66,7 @@ type Enc struct {
 	items      []item
 	nfresh     int
 	freshRes   map[string]bool // call results declared fresh by their contracts (term names)
+	recoverSeen map[*ssa.Function]bool // functions on the inlined stack that have executed a defer with recover()
 	heapSort   map[string]string // heap name -> sort of the whole heap array
 	structDT   map[string]bool
 	strIDs     map[string]int
